@@ -70,6 +70,8 @@ def run(ctx, cases, pid, tags=None, known=(), unit_modules=(), skip_data=False, 
     first_bad = None
     nbad = 0
     for c, r in zip(cases, results):
+        if r.get("results") is None and "create" in r:
+            r["results"] = []
         if "results" not in r:
             viol.append(dict(what="hist harness failed on a case: %s" % str(r)[:300], case=c, nofail=True,
                              correspondence="harness/hist"))
